@@ -71,9 +71,13 @@ fn mutate_def(rng: &mut Rng, d: &Def) -> Def {
         Body::Struct(fs) => mutate_fields(rng, fs),
         Body::Enum(vs) => {
             let i = rng.below(vs.len());
-            match rng.below(4) {
+            match rng.below(6) {
                 0 => vs[i].0 = format!("{}Renamed", vs[i].0),
                 1 if vs.len() >= 2 => { vs.remove(i); }
+                // wire-different copies that agree in names and fields (F19): another index,
+                // or the indices of two variants exchanged
+                2 => vs[i].1 = vs[i].1.wrapping_add(100),
+                3 if vs.len() >= 2 => { let j = (i + 1) % vs.len(); let t = vs[i].1; vs[i].1 = vs[j].1; vs[j].1 = t; }
                 _ => mutate_fields(rng, &mut vs[i].2),
             }
         }
